@@ -181,6 +181,7 @@ def _impl_sched(case) -> str:
         try:
             for n in range(wants[t]):
                 r.callFromThread(fn, t, n)
+                sched.seg.append("!")          # callFromThread has returned (not part of the model's observation)
         except BaseException as e:     # noqa
             errors.append(repr(e))
         finally:
@@ -384,14 +385,15 @@ def oracle(case, obs):
         ev, _, flags = st.partition("|")
         where = f"step {i} ({case['sched'][i]} -> {ev}): "
         if ev.startswith("a"):
-            t, n = map(int, ev[1:].split("."))
+            t, n = map(int, ev[1:].rstrip("!").split("."))
             if n != napp.get(t, 0):
                 return Failure(case, where + "append out of issue order", "append-order")
             napp[t] = n + 1
             appended.append((t, n))
         elif ev.startswith("w"):
-            t = int(ev[1:])
-            woken[t] = napp.get(t, 0)
+            t = int(ev[1:].rstrip("!"))
+        if ev.endswith("!"):
+            woken[case["sched"][i]] = napp.get(case["sched"][i], 0)
         elif ev.startswith("x"):
             t, n = map(int, ev[1:].split("."))
             if (t, n) in executed:
@@ -494,7 +496,7 @@ SPEC = Spec(
     coq_header="From C13 Require Import Model Run.",
     coq_fn="run_show",
     to_coq=to_coq,
-    model_equal=lambda c, a, b: a.partition(" #")[0] == b,
+    model_equal=lambda c, a, b: a.partition(" #")[0].replace("!", "") == b,
     nontrivial=lambda c, o: "x" in o or o == "stress ok",
     histogram=lambda c, o: ("stress " + c["stress"]) if "stress" in c else f"{len(c['wants'])} producer(s)",
     rule="scheduled traces: every interleaving of one producer's 2/4 (thorough 6) atomic steps with the first 9/7 "
